@@ -69,6 +69,14 @@ CAMPAIGNS = {
                ex(ph(HIST), ph(HIST, pick=4), ph(FULLREORDER, True, "r", 3))],
         thorough=[ex(ph(HIST, True, pick=40), ph(FULLREORDER, True, "r")),
                   ex(ph(HIST), ph(HIST, pick=8), ph(FULLREORDER, True, "r", 20))]),
+    "reorder_len4": model_campaign(
+        # every permutation of an axis of length 4, and pairs of permutations (a permutation, then its inverse
+        # among them); align_to on a permuted 4 x 4 pair
+        "reorder_len4", heaps="len4",
+        quick=[ex(ph(["sort_order", "sort", "transpose", "align_to"], True, "r")),
+               ex(ph(["sort_order"], True, pick=8), ph(["sort_order"], True, "r", 12))],
+        thorough=[ex(ph(["sort_order"], True), ph(["sort_order", "transpose", "align_to"], True, "r")),
+                  ex(ph(HIST, pick=10), ph(FULLREORDER, True, "r"))]),
     "involutions": model_campaign(
         "involutions",
         quick=[ex(ph(["transpose"]), ph(["transpose"], False, "r")),
@@ -362,7 +370,7 @@ PROPERTIES = {
     },
     "C06": {
         "level": "model_checking",
-        "campaigns": [CAMPAIGNS["reorder_full"], CAMPAIGNS["recorded_suite"], CAMPAIGNS["involutions"]],
+        "campaigns": [CAMPAIGNS["reorder_full"], CAMPAIGNS["reorder_len4"], CAMPAIGNS["recorded_suite"], CAMPAIGNS["involutions"]],
         "assumptions": ["copy.deepcopy, scipy toarray and numpy are trusted for the projection"],
     },
 }
